@@ -733,6 +733,28 @@ theorem setMode_keeps (srv : Server) (c : Nat) (e : Err) {x : Conn} (hx : x ∈ 
     refine ⟨_, List.mem_map.mpr ⟨x, hx, rfl⟩, ?_⟩
     split <;> rfl
 
+theorem arm_inv {srv : Server} (h : WFc srv) (hN : NoLeak srv) (b : Server) (c : Nat) :
+    WFc (arm b srv c) ∧ NoLeak (arm b srv c) := by
+  refine ⟨h.mapConns _ ?_ ?_, hN.mono fun x hx => hx⟩
+  · intro x; split
+    · rfl
+    · split <;> rfl
+  · intro x; split
+    · rfl
+    · split <;> rfl
+
+theorem arm_keeps (b srv : Server) (c : Nat) {x : Conn} (hx : x ∈ srv.conns) :
+    ∃ y ∈ (arm b srv c).conns, y.id = x.id := by
+  refine ⟨_, List.mem_map.mpr ⟨x, hx, rfl⟩, ?_⟩
+  split
+  · rfl
+  · split <;> rfl
+
+theorem silence_inv {srv : Server} (h : WFc srv) (hN : NoLeak srv) : WFc (silence srv) ∧ NoLeak (silence srv) := by
+  unfold silence
+  exact foldl_inv (P := fun s => WFc s ∧ NoLeak s) _ (fun s ss hs => ⟨hs.1.endSession ss.id, hs.2.endSession ss.id⟩) _ _
+    (foldl_inv (P := fun s => WFc s ∧ NoLeak s) _ (fun s cn hs => closeConn_inv hs.1 hs.2 cn.id) _ _ ⟨h, hN⟩)
+
 theorem nonRequest_inv {srv : Server} (h : WFc srv) (hN : NoLeak srv) (c : Nat) (b : Bool) :
     WFc (nonRequest srv c b) ∧ NoLeak (nonRequest srv c b) := by
   unfold nonRequest
@@ -753,7 +775,8 @@ theorem handleRequest_inv {srv : Server} (h : WFc srv) (hN : NoLeak srv) (cfg : 
   dsimp only
   split
   · exact closeConn_inv this.1 this.2 _
-  · exact setMode_inv this.1 this.2 _ _
+  · obtain ⟨a, b⟩ := setMode_inv this.1 this.2 cn.id res.err
+    exact arm_inv a b _ _
 
 theorem stepEv_inv {srv : Server} (h : WFc srv) (hN : NoLeak srv) (cfg : Config) (e : Event) :
     WFc (stepEv cfg srv e).1 ∧ NoLeak (stepEv cfg srv e).1 := by
@@ -767,6 +790,7 @@ theorem stepEv_inv {srv : Server} (h : WFc srv) (hN : NoLeak srv) (cfg : Config)
   | expire sid => exact ⟨h.endSession sid, hN.endSession sid⟩
   | frame c => exact nonRequest_inv h hN c true
   | response c => exact nonRequest_inv h hN c false
+  | silence => exact silence_inv h hN
   | req c r =>
     simp only [stepEv]
     cases hf : findConn srv c with
@@ -882,7 +906,8 @@ theorem conn_closed_iff_error {srv : Server} (h : WFc srv) (cfg : Config) {cn : 
       simp only [hf] at hnone
       obtain ⟨x, hx, hxid⟩ := hk
       obtain ⟨y, hy, hyid⟩ := setMode_keeps srv1 cn.id res.err hx
-      exact absurd (hyid.trans hxid) (findConn_none_iff.mp hnone y hy)
+      obtain ⟨z, hz, hzid⟩ := arm_keeps srv (setMode srv1 cn.id res.err) cn.id hy
+      exact absurd (hzid.trans (hyid.trans hxid)) (findConn_none_iff.mp hnone z hz)
   · exact handleRequest_fail_closes cfg srv cn r
 
 end Rtsp.Sess
